@@ -67,6 +67,7 @@ def discharge(ob, use_cvc5=True):
     for h in ob.hyps:
         s.add(h)
     s.add(z3.Not(ob.goal))
+    smt2 = s.to_smt2()      # before check(): z3 prints rewritten (non-standard) terms afterwards
     r = s.check()
     ob.secs = time.time() - t0
     if r == z3.unsat:
@@ -78,7 +79,7 @@ def discharge(ob, use_cvc5=True):
         ob.z3model = s.model()
         return ob
     if use_cvc5:
-        res = run_cvc5(s.to_smt2())
+        res = run_cvc5(smt2)
         ob.secs = time.time() - t0
         if res == 'unsat':
             ob.verdict, ob.backend = 'proved', 'cvc5'
@@ -89,6 +90,12 @@ def discharge(ob, use_cvc5=True):
             ob.model = {}
             return ob
     ob.verdict, ob.backend = 'undecided', 'z3+cvc5'
+    dump = os.environ.get('PYVC_DUMP')
+    if dump:
+        import hashlib
+        os.makedirs(dump, exist_ok=True)
+        with open(os.path.join(dump, hashlib.sha256(ob.name.encode()).hexdigest()[:10] + f'_{ob.path_id}.smt2'), 'w') as fp:
+            fp.write('; ' + ob.name + '\n' + smt2)
     return ob
 
 
